@@ -202,7 +202,7 @@ class ListTree:
                 pattern_parts.append(self._no_delimiter)
             else:
                 pattern_parts.append(re.escape(part))
-        pattern = '^' + ''.join(pattern_parts) + '$'
+        pattern = '^' + ''.join(pattern_parts) + r'\Z'
         return (re.compile(pattern, re.DOTALL),
                 re.compile(pattern, re.DOTALL | re.IGNORECASE))
 
